@@ -17,8 +17,12 @@ Definition spec_char (c:N) : list N :=
   else if in_r c 0xAC00 0xD7A3 then spec_letter (0x1100 + (c - 0xAC00) / 588)
   else spec_letter c.
 Definition free (c:N) : bool := in_r c 0xD7A4 0xD7AF.   (* unassigned code points inside the listed block: spec undecided *)
+(* merge runs of separators into one separator *)
 Fixpoint collapse (l:list N) : list N :=
-  match l with 32 :: ((32 :: _) as r) => collapse r | x :: r => x :: collapse r | [] => [] end.
+  match l with
+  | [] => []
+  | x :: r => if (x =? 32) && (match r with y :: _ => y =? 32 | [] => false end) then collapse r else x :: collapse r
+  end.
 Definition leqb (a b : list N) : bool := if list_eq_dec N.eq_dec a b then true else false.
 Definition ok (c:N) : bool := free c || leqb (collapse (normalize c)) (spec_char c).
 
